@@ -1,5 +1,6 @@
 import G3D.Proofs.HashKey
 import G3D.Props.Classes
+import G3D.Proofs.SameSet
 /-! # C08 — equality is representation-independent and consistent with hashing
     `eqv` models `__eq__` (exact reading), `hashKey` models the tuple the CURRENT `__hash__` rounds and hashes,
     with every rounded float replaced by an exact injective representative (unit vectors as
@@ -49,4 +50,27 @@ theorem eq_foreign_false : ∀ t ∈ [Ty.point, .line, .plane, .polygon, .polyhe
 /-- non-vacuity / the D9 witnesses: equal lines and planes in different representations have equal keys -/
 example : Line.hashKey ⟨⟨0,0,0⟩, ⟨1,2,3⟩⟩ = Line.hashKey ⟨⟨1,2,3⟩, ⟨2,4,6⟩⟩ := by decide +kernel
 example : Plane.hashKey ⟨⟨0,0,1⟩, ⟨0,0,1⟩⟩ = Plane.hashKey ⟨⟨3,4,1⟩, ⟨0,0,-2⟩⟩ := by decide +kernel
+
+/-! ### ConvexPolygon / ConvexPolyhedron: equality ⇔ same point set
+    In the code `==` is equality of hashes built from the SUM of the vertex (and face) hashes and the carrier plane up to
+    sign.  The model compares the vertex sets and planes (`Polygon.same`), resp. vertex sets and face sets
+    (`Polyhedron.sameB`); that equal sums stand for equal sets is the modelling assumption, checked per run. -/
+theorem polygon_eq_iff_same_set (P Q : Polygon) (hP : P.Valid) (hQ : Q.Valid) :
+    P.same Q = true ↔ ∀ x, InHull P.pts x ↔ InHull Q.pts x := Polygon.same_iff_same_hull P Q hP hQ
+theorem polygon_eq_refl_symm_trans (P Q R : Polygon) (hP : P.Valid) (hQ : Q.Valid) (hR : R.Valid) :
+    P.same P = true ∧ P.same Q = Q.same P ∧ (P.same Q = true → Q.same R = true → P.same R = true) :=
+  ⟨Polygon.same_refl P hP, Polygon.same_comm P Q hP hQ, Polygon.same_trans P Q R hP hQ hR⟩
+/-- polyhedra (faces Valid, closed, vertices inside, no coplanar neighbours; every listed vertex on a face — true of every
+    constructed and every moved body) -/
+theorem polyhedron_eq_iff_same_set (A B : Polyhedron) (hA : A.Proper) (hB : B.Proper)
+    (hAv : A.VertsOnFaces) (hBv : B.VertsOnFaces) :
+    A.sameB B = true ↔ ∀ x, InHull A.verts x ↔ InHull B.verts x := Polyhedron.sameB_iff_same_hull A B hA hB hAv hBv
+/-- two constructions from the same faces in different order / orientation / start vertex compare equal -/
+theorem polyhedron_eq_of_reordered (B0 : Polyhedron) (hV : B0.Valid) (hloc : B0.FaceLocal)
+    (F1 F2 input1 input2 : List Polygon) (hperm1 : List.Perm F1 B0.faces) (hrel1 : List.Forall₂ Reoriented F1 input1)
+    (hperm2 : List.Perm F2 B0.faces) (hrel2 : List.Forall₂ Reoriented F2 input2)
+    (B1 B2 : Polyhedron) (h1 : Polyhedron.mk? input1 = .ok B1) (h2 : Polyhedron.mk? input2 = .ok B2) :
+    B1.sameB B2 = true :=
+  Polyhedron.mk?_reoriented_sameB B0 hV hloc F1 F2 input1 input2 hperm1 hrel1 hperm2 hrel2 B1 B2 h1 h2
+
 end G3D.Props.C08
